@@ -25,7 +25,7 @@ Definition chk_origin (e : elem) : bool :=
   | _, _ => false
   end.
 Lemma all_origin : forallb chk_origin all_elems = true.
-Proof. vm_compute. reflexivity. Qed.
+Proof. vm_cast_no_check (eq_refl true). Qed.
 
 Theorem origin_is_node0 : forall e, In e all_elems -> forall a, a < edim e ->
   nth a (forigin (ftab_of e)) 0%Q == nth a (nth 0 (enodes e) []) 1%Q.
@@ -45,7 +45,7 @@ Definition chk_affine (e : elem) : bool :=
   pvec_eqb (vaffinize e (xmap e)) (affine_of (xi_or0 (edim e))) &&
   forallb (fun b => pvec_eqb (vaffinize e (Frow e b)) (A_col b)) (seq 0 (edim e)).
 Lemma all_affine : forallb chk_affine all_elems = true.
-Proof. vm_compute. reflexivity. Qed.
+Proof. vm_cast_no_check (eq_refl true). Qed.
 
 (* For every element type whose nodes are the affine image X_i = O + A xi_i of the reference
    nodes (all O, A; parallelograms, parallelepipeds, straight-sided simplices of any order):
@@ -107,7 +107,7 @@ Definition cost (k : eval_kind) (e : elem) : pvec :=
 
 (* corrected formula: consistent for every element type, every xi, all node coordinates *)
 Lemma all_iso_consistent : forallb (fun e => pvec_eqb (cost EvalIso e) pzero) all_elems = true.
-Proof. vm_compute. reflexivity. Qed.
+Proof. vm_cast_no_check (eq_refl true). Qed.
 Theorem iterative_inverse_map_consistent_iso : forall e, In e all_elems -> forall l : list R,
   Rv l (cost EvalIso e) = (0, 0, 0)%R.
 Proof.
@@ -117,7 +117,7 @@ Qed.
 
 (* the formula found in the code is consistent on affine elements (all 19 types) ... *)
 Lemma all_tangent_affine : forallb (fun e => pvec_eqb (vaffinize e (cost EvalTangent e)) pzero) all_elems = true.
-Proof. vm_compute. reflexivity. Qed.
+Proof. vm_cast_no_check (eq_refl true). Qed.
 Theorem tangent_cost_consistent_on_affine : forall e, In e all_elems -> forall l : list R,
   Rv l (vaffinize e (cost EvalTangent e)) = (0, 0, 0)%R.
 Proof.
